@@ -13,6 +13,7 @@ package rjson
 //
 // ---------------------------------------------------------------- rjson.go / machine_helpers.go
 //@ func countWhitespace(data) (n)
+//@   ensures [C19,C20] ghost_alloc == old(ghost_alloc)
 //@   input data
 //@   ensures n == wsrun(data, 0)
 //@   ensures 0 <= n && n <= len(data)
@@ -21,8 +22,10 @@ package rjson
 //@   loop 1 invariant 0 <= i && i <= len(data)
 //@   loop 1 invariant forall(j, 0, i, ws(data[j]))
 //@   loop 1 decreases len(data) - i
+//@   loop 1 invariant ghost_alloc == 0
 //
 //@ func skipFloatExp(data, p, pe) (r, err)
+//@   ensures [C19,C20] ghost_alloc == old(ghost_alloc)
 //@   input data
 //@   sim value init=none
 //@   requires 0 < p && p <= pe && pe == len(data)
@@ -38,8 +41,10 @@ package rjson
 //@   loop 1 invariant @sim p > startP && !(signed && p == startP + 1) ==> qis(Rq(data, p), "InValue.NumExp@*")
 //@   loop 1 invariant @sim qctx(Rq(data, p)) == qctx(Rq(data, startP)) && sameframe(data, p, startP)
 //@   loop 1 decreases pe - p
+//@   loop 1 invariant ghost_alloc == 0
 //
 //@ func skipFloatDec(data, p, pe) (r, err)
+//@   ensures [C19,C20] ghost_alloc == old(ghost_alloc)
 //@   input data
 //@   sim value init=none
 //@   requires 0 < p && p <= pe && pe == len(data)
@@ -51,23 +56,31 @@ package rjson
 //@   loop 1 invariant old(p) < p && p <= pe && pe == old(pe)
 //@   loop 1 invariant @sim qis(Rq(data, p), "InValue.NumFrac@*") && qctx(Rq(data, p)) == qctx(Rq(data, old(p))) && sameframe(data, p, old(p))
 //@   loop 1 decreases pe - p
+//@   loop 1 invariant ghost_alloc == 0
 //
 //@ func errUnexpectedByteInString(b) (r)
+//@   ensures [C20] ghost_alloc <= old(ghost_alloc) + 256
 //@   ensures r != nil
 //
 //@ func growBytesSliceCapacity(slice, size) (r)
+//@   ensures [C19,C20] cap(slice) >= size ==> ghost_alloc == old(ghost_alloc) && cap(r) == cap(slice)
+//@   ensures [C20] cap(slice) < size ==> ghost_alloc <= old(ghost_alloc) + 4*size + 256
 //@   ensures len(r) == len(slice) && cap(r) >= size && cap(r) >= cap(slice)
 //@   ensures forall(j, 0, len(slice), r[j] == slice[j])
 //
 //@ global let uesc(s, i) = i + 6 <= len(s) && s[i] == '\\' && s[i+1] == 'u' && hexdigit(s[i+2]) && hexdigit(s[i+3]) && hexdigit(s[i+4]) && hexdigit(s[i+5])
 //
 //@ func getu4(data) (r)
+//@   ensures [C19,C20] ghost_alloc == old(ghost_alloc)
 //@   input data
 //@   loop 1 unroll
 //@   ensures -1 <= r && r <= 0xFFFF
 //@   ensures r >= 0 <==> uesc(data, 0)
 //
 //@ func unescapeUnicodeChar(s, data) (result, bytesHandled, ok)
+//@   ensures [C19,C20] cap(data) >= len(data) + 4 ==> ghost_alloc == old(ghost_alloc) && cap(result) == cap(data)
+//@   ensures [C20] ghost_alloc <= old(ghost_alloc) + 4*len(data) + 512
+//@   ensures cap(result) >= cap(data)
 //@   input s
 //@   ensures ok <==> uesc(s, 0)
 //@   ensures ok && bytesHandled == 12 ==> uesc(s, 6)
@@ -77,6 +90,9 @@ package rjson
 //@   ensures forall(j, 0, len(data), result[j] == data[j])
 // ---------------------------------------------------------------- generated machines (safety layer)
 //@ func skipValue(data, stack) (p, stack1, err)
+//@   candidates @alloc ghost_alloc <= 64*(cap(stack) - cap(old(stack))) + 8*(len(stack) - len(old(stack)))
+//@   candidates @alloc cap(stack) >= cap(old(stack)); len(stack) >= len(old(stack)); cap(stack) == cap(old(stack)) || cap(stack) <= 2*p + 40; len(stack) == len(old(stack)) || len(stack) <= p + 2; top <= p
+//@   ensures @alloc [C20] ghost_alloc <= old(ghost_alloc) + 256*p + 4096
 //@   input data
 //@   scratch stack
 //@   sim value limit=10000 pos@_again=p+1 key@_again=cs
@@ -90,6 +106,9 @@ package rjson
 //@   ensures err == nil ==> 0 <= p && p <= len(data)
 //
 //@ func skipValueFast(data, stack) (p, stack1, err)
+//@   candidates @alloc ghost_alloc <= 64*(cap(stack) - cap(old(stack))) + 8*(len(stack) - len(old(stack)))
+//@   candidates @alloc cap(stack) >= cap(old(stack)); len(stack) >= len(old(stack)); cap(stack) == cap(old(stack)) || cap(stack) <= 2*p + 40; len(stack) == len(old(stack)) || len(stack) <= p + 2; top <= p
+//@   ensures @alloc [C20] ghost_alloc <= old(ghost_alloc) + 256*p + 4096
 //@   input data
 //@   scratch stack
 //@   cuts st_case_*, _again
@@ -100,6 +119,9 @@ package rjson
 //@   ensures err == nil ==> 0 <= p && p <= len(data)
 //
 //@ func handleArrayValues(data, handler, stack) (p, stack1, err)
+//@   candidates @alloc ghost_alloc <= 64*(cap(stack) - cap(old(stack))) + 8*(len(stack) - len(old(stack)))
+//@   candidates @alloc cap(stack) >= cap(old(stack)); len(stack) >= len(old(stack)); cap(stack) == cap(old(stack)) || cap(stack) <= 2*p + 40; len(stack) == len(old(stack)) || len(stack) <= p + 2; top <= p
+//@   ensures @alloc [C20] ghost_alloc <= old(ghost_alloc) + 256*p + 4096
 //@   input data
 //@   scratch stack
 //@   sim travarr delta=1 resync=1 pos@_again=p+1 key@_again=cs
@@ -117,6 +139,9 @@ package rjson
 //@   ensures err == nil ==> 0 <= p && p <= len(data)
 //
 //@ func handleObjectValues(data, handler, stack) (p, stack1, err)
+//@   candidates @alloc ghost_alloc <= 64*(cap(stack) - cap(old(stack))) + 8*(len(stack) - len(old(stack)))
+//@   candidates @alloc cap(stack) >= cap(old(stack)); len(stack) >= len(old(stack)); cap(stack) == cap(old(stack)) || cap(stack) <= 2*p + 40; len(stack) == len(old(stack)) || len(stack) <= p + 2; top <= p
+//@   ensures @alloc [C20] ghost_alloc <= old(ghost_alloc) + 256*p + 4096
 //@   input data
 //@   scratch stack
 //@   sim travobj delta=1 resync=1 pos@_again=p+1 key@_again=cs
@@ -136,6 +161,8 @@ package rjson
 //@   candidates 0 <= currentFieldStart; currentFieldStart < p; currentFieldStart + 2 <= p; currentFieldStart + 2 <= currentFieldEnd; currentFieldEnd <= p
 //
 //@ func readNull(data) (p, err)
+//@   candidates ghost_alloc == 0
+//@   ensures [C19,C20] ghost_alloc == old(ghost_alloc)
 //@   input data
 //@   cuts st_case_*
 //@   candidates 0 <= p; p < pe
@@ -150,6 +177,8 @@ package rjson
 //@   ensures [C13,C08,C12] err == nil ==> p == wsrun(data, 0) + 4
 //
 //@ func readBool(data) (val, p, err)
+//@   candidates ghost_alloc == 0
+//@   ensures [C19,C20] ghost_alloc == old(ghost_alloc)
 //@   input data
 //@   cuts st_case_*
 //@   candidates 0 <= p; p < pe
@@ -169,6 +198,8 @@ package rjson
 //@   ensures [C13,C08,C12] err == nil ==> val == litat(data, wsrun(data, 0), "true") && p == wsrun(data, 0) + ite(val, 4, 5)
 //
 //@ func unescapeStringContent(data, dst) (val, p, err)
+//@   ensures @alloc [C20] err == nil ==> ghost_alloc <= old(ghost_alloc) + 4*len(dst) + 16*p + 1024
+//@   candidates @alloc cap(dst) >= cap(old(dst)); len(dst) <= len(old(dst)) + segStart; len(dst) <= len(old(dst)) + p
 //@   ensures @sim [C06] qis(Rq(data, len(data)), "InValue.Str@top") ==> err == nil && p == len(data)
 //@   input data
 //@   cuts st_case_*
@@ -184,6 +215,8 @@ package rjson
 //@   ensures err == nil ==> 0 <= p && p <= len(data)
 //
 //@ func appendRemainderOfString(data, dst) (val, p, err)
+//@   ensures @alloc [C20] err == nil ==> ghost_alloc <= old(ghost_alloc) + 4*len(dst) + 16*p + 1024
+//@   candidates @alloc cap(dst) >= cap(old(dst)); len(dst) <= len(old(dst)) + segStart; len(dst) <= len(old(dst)) + p
 //@   ensures @sim [C06] err == nil ==> p >= 1 && data[p-1] == '"' && qis(Rq(data, p-1), "InValue.Str@top") && Rdepth(data, p-1) == 0
 //@   ensures @sim [C06] err != nil ==> !accepts(data)
 //@   input data
@@ -208,6 +241,7 @@ package rjson
 //@   ensures err == nil ==> 0 <= p && p <= len(data)
 // ---------------------------------------------------------------- public wrappers
 //@ func SkipValue(data, buffer) (p, err)
+//@   ensures @alloc [C20] ghost_alloc <= old(ghost_alloc) + 256*p + 4096
 //@   input data
 //@   scratch buffer
 //@   sim value init=none
@@ -217,12 +251,14 @@ package rjson
 //@   ensures err == nil ==> 0 <= p && p <= len(data)
 //
 //@ func SkipValueFast(data, buffer) (p, err)
+//@   ensures @alloc [C20] ghost_alloc <= old(ghost_alloc) + 256*p + 4096
 //@   input data
 //@   scratch buffer
 //@   assigns buffer.stackBuf
 //@   ensures err == nil ==> 0 <= p && p <= len(data)
 //
 //@ func HandleArrayValues(data, handler, buffer) (p, err)
+//@   ensures @alloc [C20] ghost_alloc <= old(ghost_alloc) + 256*p + 4096
 //@   input data
 //@   scratch buffer
 //@   sim travarr init=none
@@ -234,6 +270,7 @@ package rjson
 //@   ensures err == nil ==> 0 <= p && p <= len(data)
 //
 //@ func HandleObjectValues(data, handler, buffer) (p, err)
+//@   ensures @alloc [C20] ghost_alloc <= old(ghost_alloc) + 256*p + 4096
 //@   input data
 //@   scratch buffer
 //@   sim travobj init=none
@@ -252,12 +289,14 @@ package rjson
 //@   ensures @sim [C01] ok <==> accepts(data) && wsrun(data, endof(data)) == len(data)
 // ---------------------------------------------------------------- token.go
 //@ func NextTokenType(data) (tp, p, err)
+//@   ensures [C19,C20] ghost_alloc == old(ghost_alloc)
 //@   input data
 //@   ensures err == nil || err == io.EOF
 //@   ensures err == io.EOF ==> p == len(data) && tp == 0 && forall(j, 0, len(data), ws(data[j]))
 //@   ensures err == nil ==> 1 <= p && p <= len(data) && !ws(data[p-1]) && tp == tokclass(data[p-1]) && forall(j, 0, p-1, ws(data[j]))
 //
 //@ func NextToken(data) (token, p, err)
+//@   ensures [C19,C20] ghost_alloc == old(ghost_alloc)
 //@   input data
 //@   ensures err == io.EOF ==> p == len(data) && token == 0 && forall(j, 0, len(data), ws(data[j]))
 //@   ensures err != io.EOF ==> 1 <= p && p <= len(data) && !ws(data[p-1]) && token == data[p-1] && forall(j, 0, p-1, ws(data[j]))
@@ -279,6 +318,9 @@ package rjson
 //
 // ---------------------------------------------------------------- simple_readers.go
 //@ func ReadUint64(data) (val, p, err)
+//@   ensures [C19,C20] !(wsrun(data, 0) < len(data) && digit(data[wsrun(data, 0)])) ==> ghost_alloc == old(ghost_alloc)
+//@   ensures [C19,C20] err == nil ==> ghost_alloc == old(ghost_alloc)
+//@   ensures [C20] ghost_alloc <= old(ghost_alloc) + 256
 //@   input data
 //@   let k = wsrun(data, 0)
 //@   ensures err == nil ==> 0 <= p && p <= len(data)
@@ -295,8 +337,13 @@ package rjson
 //@   loop 2 invariant forall(j, startP, p, digit(data[j]))
 //@   loop 2 invariant u128(val) == DV(data, startP, p) && DV(data, startP, p) < 0x10000000000000000
 //@   loop 2 decreases len(data) - p
+//@   loop 1 invariant ghost_alloc == 0
+//@   loop 2 invariant ghost_alloc == 0
 //
 //@ func ReadUint32(data) (val, p, err)
+//@   ensures [C19,C20] !(wsrun(data, 0) < len(data) && digit(data[wsrun(data, 0)])) ==> ghost_alloc == old(ghost_alloc)
+//@   ensures [C19,C20] err == nil ==> ghost_alloc == old(ghost_alloc)
+//@   ensures [C20] ghost_alloc <= old(ghost_alloc) + 256
 //@   input data
 //@   ensures err == nil ==> 0 <= p && p <= len(data)
 //@   ensures [C05,C08,C13] err == nil <==> uint64ok(data) && uintval(data, wsrun(data, 0)) <= 0xFFFFFFFF
@@ -306,6 +353,9 @@ package rjson
 //@   defines err == nil ==> val == rval(ReadUint32, data) && p == rp(ReadUint32, data)
 //
 //@ func ReadInt64(data) (val, p, err)
+//@   ensures [C19,C20] !(wsrun(data, 0) < len(data) && (digit(data[wsrun(data, 0)]) || data[wsrun(data, 0)] == '-')) ==> ghost_alloc == old(ghost_alloc)
+//@   ensures [C19,C20] err == nil ==> ghost_alloc == old(ghost_alloc)
+//@   ensures [C20] ghost_alloc <= old(ghost_alloc) + 256
 //@   input data
 //@   ensures err == nil ==> 0 <= p && p <= len(data)
 //@   ensures [C05,C08,C13] err == nil <==> int64ok(data)
@@ -315,6 +365,9 @@ package rjson
 //@   defines err == nil ==> val == rval(ReadInt64, data) && p == rp(ReadInt64, data)
 //
 //@ func ReadInt32(data) (val, p, err)
+//@   ensures [C19,C20] !(wsrun(data, 0) < len(data) && (digit(data[wsrun(data, 0)]) || data[wsrun(data, 0)] == '-')) ==> ghost_alloc == old(ghost_alloc)
+//@   ensures [C19,C20] err == nil ==> ghost_alloc == old(ghost_alloc)
+//@   ensures [C20] ghost_alloc <= old(ghost_alloc) + 256
 //@   input data
 //@   ensures err == nil ==> 0 <= p && p <= len(data)
 //@   ensures [C05,C08,C13] err == nil <==> int64ok(data) && -2147483648 <= intval(data) && intval(data) <= 2147483647
@@ -324,6 +377,9 @@ package rjson
 //@   defines err == nil ==> val == rval(ReadInt32, data) && p == rp(ReadInt32, data)
 //
 //@ func ReadInt(data) (val, p, err)
+//@   ensures [C19,C20] !(wsrun(data, 0) < len(data) && (digit(data[wsrun(data, 0)]) || data[wsrun(data, 0)] == '-')) ==> ghost_alloc == old(ghost_alloc)
+//@   ensures [C19,C20] err == nil ==> ghost_alloc == old(ghost_alloc)
+//@   ensures [C20] ghost_alloc <= old(ghost_alloc) + 256
 //@   input data
 //@   ensures err == nil ==> 0 <= p && p <= len(data)
 //@   ensures [C05,C08,C13] err == nil <==> int64ok(data)
@@ -333,6 +389,9 @@ package rjson
 //@   defines err == nil ==> val == rval(ReadInt, data) && p == rp(ReadInt, data)
 //
 //@ func ReadUint(data) (val, p, err)
+//@   ensures [C19,C20] !(wsrun(data, 0) < len(data) && digit(data[wsrun(data, 0)])) ==> ghost_alloc == old(ghost_alloc)
+//@   ensures [C19,C20] err == nil ==> ghost_alloc == old(ghost_alloc)
+//@   ensures [C20] ghost_alloc <= old(ghost_alloc) + 256
 //@   input data
 //@   ensures err == nil ==> 0 <= p && p <= len(data)
 //@   ensures [C05,C08,C13] err == nil <==> uint64ok(data)
@@ -342,12 +401,16 @@ package rjson
 //@   defines err == nil ==> val == rval(ReadUint, data) && p == rp(ReadUint, data)
 //
 //@ func ReadFloat64(data) (val, p, err)
+//@   ensures [C19,C20] ghost_alloc == old(ghost_alloc)
+//@   ensures [C19,C20] err == nil ==> ghost_alloc == old(ghost_alloc)
+//@   ensures [C20] ghost_alloc <= old(ghost_alloc) + 256
 //@   input data
 //@   ensures err == nil ==> 0 <= p && p <= len(data)
 //@   defines (err == nil) == rok(ReadFloat64, data)
 //@   defines err == nil ==> val == rval(ReadFloat64, data) && p == rp(ReadFloat64, data)
 //
 //@ func ReadBool(data) (val, p, err)
+//@   ensures [C19,C20] ghost_alloc == old(ghost_alloc)
 //@   input data
 //@   ensures err == nil ==> 0 <= p && p <= len(data)
 //@   ensures [C13,C08] err == nil <==> litat(data, wsrun(data, 0), "true") || litat(data, wsrun(data, 0), "false")
@@ -357,6 +420,7 @@ package rjson
 //@   defines err == nil ==> val == rval(ReadBool, data) && p == rp(ReadBool, data)
 //
 //@ func ReadNull(data) (p, err)
+//@   ensures [C19,C20] ghost_alloc == old(ghost_alloc)
 //@   input data
 //@   ensures err == nil ==> 0 <= p && p <= len(data)
 //@   ensures [C13,C08] err == nil <==> litat(data, wsrun(data, 0), "null")
@@ -366,6 +430,7 @@ package rjson
 //@   defines err == nil ==> p == rp(ReadNull, data)
 //
 //@ func ReadStringBytes(data, buf) (val, p, err)
+//@   ensures @alloc [C20] err == nil ==> ghost_alloc <= old(ghost_alloc) + 4*len(buf) + 16*p + 1024
 //@   input data
 //@   sim value
 //@   ensures @sim [C06,C08] err == nil ==> accepts(data) && p == endof(data) && data[wsrun(data, 0)] == '"'
@@ -395,11 +460,16 @@ package rjson
 //@   loop 1 decreases len(data) - p
 // ---------------------------------------------------------------- decode.go
 //@ func nullOrBust(data, origErr) (p, err)
+//@   requires origErr != nil
+//@   ensures err == nil ==> litat(data, wsrun(data, 0), "null")
+//@   ensures [C19,C20] ghost_alloc == old(ghost_alloc)
 //@   input data
 //@   ensures rok(ReadNull, data) ==> p == rp(ReadNull, data) && err == nil && 0 <= p && p <= len(data)
 //@   ensures !rok(ReadNull, data) ==> p == 0 && err == origErr
 //
 //@ func DecodeBool(data, v) (p, err)
+//@   ensures [C19,C20] err == nil ==> ghost_alloc == old(ghost_alloc)
+//@   ensures [C20] ghost_alloc <= old(ghost_alloc) + 256
 //@   input data
 //@   requires v != nil
 //@   ensures rok(ReadBool, data) ==> err == nil && *v == rval(ReadBool, data) && p == rp(ReadBool, data)
@@ -408,6 +478,8 @@ package rjson
 //@   ensures err == nil ==> 0 <= p && p <= len(data)
 //
 //@ func DecodeFloat64(data, v) (p, err)
+//@   ensures [C19,C20] err == nil ==> ghost_alloc == old(ghost_alloc)
+//@   ensures [C20] ghost_alloc <= old(ghost_alloc) + 256
 //@   input data
 //@   requires v != nil
 //@   ensures rok(ReadFloat64, data) ==> err == nil && *v == rval(ReadFloat64, data) && p == rp(ReadFloat64, data)
@@ -416,6 +488,8 @@ package rjson
 //@   ensures err == nil ==> 0 <= p && p <= len(data)
 //
 //@ func DecodeInt64(data, v) (p, err)
+//@   ensures [C19,C20] err == nil ==> ghost_alloc == old(ghost_alloc)
+//@   ensures [C20] ghost_alloc <= old(ghost_alloc) + 256
 //@   input data
 //@   requires v != nil
 //@   ensures rok(ReadInt64, data) ==> err == nil && *v == rval(ReadInt64, data) && p == rp(ReadInt64, data)
@@ -424,6 +498,8 @@ package rjson
 //@   ensures err == nil ==> 0 <= p && p <= len(data)
 //
 //@ func DecodeInt32(data, v) (p, err)
+//@   ensures [C19,C20] err == nil ==> ghost_alloc == old(ghost_alloc)
+//@   ensures [C20] ghost_alloc <= old(ghost_alloc) + 256
 //@   input data
 //@   requires v != nil
 //@   ensures rok(ReadInt32, data) ==> err == nil && *v == rval(ReadInt32, data) && p == rp(ReadInt32, data)
@@ -432,6 +508,8 @@ package rjson
 //@   ensures err == nil ==> 0 <= p && p <= len(data)
 //
 //@ func DecodeInt(data, v) (p, err)
+//@   ensures [C19,C20] err == nil ==> ghost_alloc == old(ghost_alloc)
+//@   ensures [C20] ghost_alloc <= old(ghost_alloc) + 256
 //@   input data
 //@   requires v != nil
 //@   ensures rok(ReadInt, data) ==> err == nil && *v == rval(ReadInt, data) && p == rp(ReadInt, data)
@@ -440,6 +518,8 @@ package rjson
 //@   ensures err == nil ==> 0 <= p && p <= len(data)
 //
 //@ func DecodeUint64(data, v) (p, err)
+//@   ensures [C19,C20] err == nil ==> ghost_alloc == old(ghost_alloc)
+//@   ensures [C20] ghost_alloc <= old(ghost_alloc) + 256
 //@   input data
 //@   requires v != nil
 //@   ensures rok(ReadUint64, data) ==> err == nil && *v == rval(ReadUint64, data) && p == rp(ReadUint64, data)
@@ -448,6 +528,8 @@ package rjson
 //@   ensures err == nil ==> 0 <= p && p <= len(data)
 //
 //@ func DecodeUint32(data, v) (p, err)
+//@   ensures [C19,C20] err == nil ==> ghost_alloc == old(ghost_alloc)
+//@   ensures [C20] ghost_alloc <= old(ghost_alloc) + 256
 //@   input data
 //@   requires v != nil
 //@   ensures rok(ReadUint32, data) ==> err == nil && *v == rval(ReadUint32, data) && p == rp(ReadUint32, data)
@@ -456,6 +538,8 @@ package rjson
 //@   ensures err == nil ==> 0 <= p && p <= len(data)
 //
 //@ func DecodeUint(data, v) (p, err)
+//@   ensures [C19,C20] err == nil ==> ghost_alloc == old(ghost_alloc)
+//@   ensures [C20] ghost_alloc <= old(ghost_alloc) + 256
 //@   input data
 //@   requires v != nil
 //@   ensures rok(ReadUint, data) ==> err == nil && *v == rval(ReadUint, data) && p == rp(ReadUint, data)
@@ -471,3 +555,16 @@ package rjson
 //@   ensures !rok(ReadString, data) && rok(ReadNull, data) ==> err == nil && *v == old(*v) && p == rp(ReadNull, data)
 //@   ensures !rok(ReadString, data) && !rok(ReadNull, data) ==> err != nil && *v == old(*v)
 //@   ensures err == nil ==> 0 <= p && p <= len(data)
+//
+// ---------------------------------------------------------------- complex_readers.go (allocation bounds only, C20)
+// These functions use maps, interface values and sync.Pool, which the VC generator abstracts
+// (opaque values); only the ghost allocation counter at their make sites is under contract.
+//@ func (*ValueReader).ReadObject(h, data) (val, p, err)
+//@   input data
+//@   requires h != nil && h.lastSliceSize >= 0 && h.newSliceSize >= 0 && h.lastMapSize >= 0 && h.newMapSize >= 0
+//@   ensures @alloc [C20] err == nil ==> ghost_alloc <= old(ghost_alloc) + 256*p + 8192
+//
+//@ func (*ValueReader).ReadArray(h, data) (val, p, err)
+//@   input data
+//@   requires h != nil && h.lastSliceSize >= 0 && h.newSliceSize >= 0 && h.lastMapSize >= 0 && h.newMapSize >= 0
+//@   ensures @alloc [C20] err == nil ==> ghost_alloc <= old(ghost_alloc) + 256*p + 8192
